@@ -178,6 +178,62 @@ func (e *Engine) rootsFor(prop string) (jobs []rootJob, problems []string) {
 			addJob(rootJob{fn: fn, fc: fc, names: fc.ParamNames, reason: "implements " + fc.Key})
 		}
 	}
+	// events whose preconditions are tagged with the property are checked at every site of the event
+	for _, ev := range e.contracts.Events {
+		tagged := false
+		for _, r := range ev.Requires {
+			if prop == "" || hasTag(r.Tags, prop) {
+				tagged = true
+			}
+		}
+		if !tagged || len(ev.Requires) == 0 {
+			continue
+		}
+		n := 0
+		for _, fn := range e.allFuncs {
+			found := false
+			for _, b := range fn.Blocks {
+				for _, ins := range b.Instrs {
+					for _, sh := range e.instrShape(ins) {
+						parts := strings.SplitN(sh, " ", 2)
+						if len(parts) != 2 || parts[0] != ev.Kind {
+							continue
+						}
+						k := parts[1]
+						if parts[0] == "call" {
+							if i := strings.Index(k, "."); i >= 0 && k[i+1:] == ev.Key {
+								k = ev.Key
+							}
+						}
+						if k == ev.Key {
+							found = true
+						}
+					}
+				}
+			}
+			if !found {
+				continue
+			}
+			if len(ev.In) > 0 {
+				in := false
+				for _, p := range ev.In {
+					if globMatch(p, e.shortName(fn)) {
+						in = true
+					}
+				}
+				if !in {
+					continue
+				}
+			}
+			n++
+			fc := e.contractFor(fn)
+			if fc != nil && fc.Trusted != "" {
+				fc = nil
+			}
+			addJob(rootJob{fn: fn, fc: fc, reason: "event " + ev.Kind + " " + ev.Key})
+		}
+		_ = n
+	}
 	for _, s := range e.contracts.Sites {
 		tagged := prop == "" || hasTag(s.Tags, prop)
 		for _, a := range s.Asserts {
